@@ -70,6 +70,9 @@ def make_op(spec: dict):
     if kind == "iban_bank_name":
         text = spec["text"]
         return lambda: full_outcome(lambda: lib.IBAN(text).bank_name)
+    if kind == "numeric":
+        text = spec["text"]
+        return lambda: full_outcome(lambda: lib.IBAN(text, allow_invalid=True).numeric % 97)
     if kind == "iban_bic":
         text = spec["text"]
         return lambda: full_outcome(lambda: str(lib.IBAN(text).bic))
@@ -208,6 +211,17 @@ def build_harnesses(tier: str):
                            1 if (quick or m not in ("02", "16")) else 2, True))
         elif not quick and len(rx) >= 2:
             hs.append((f"m{m}:opcode:{rx[0]}x{rx[1]}", [specs[rx[0]], specs[rx[1]]], 1, True))
+        # a call of this method next to a call of ANOTHER method object (whatever the two objects
+        # share - a class-level scratch value, a table - is exchanged only across objects)
+        if rb:
+            for partner in [x for x in ("00", "06", "10", "17", "25", "16") if x != m and x in implemented][:2 if quick else 6]:
+                pmenu = method_menu(partner)
+                pk = next((k for k in sorted(pmenu, key=str) if k[0] == "x"), None) or next(iter(sorted(pmenu, key=str)), None)
+                if pk is None:
+                    continue
+                for k_ in (r1[:1] + r0[:1] + rx[:1]):
+                    hs.append((f"m{m}:cross:{k_}xm{partner}:{pk}", [specs[k_], {"op": "method", "m": partner,
+                                                                             "account": pmenu[pk]}], 1 if quick else 2, False))
         # methods whose published rule has several ACCEPTING branches (variants tried in turn,
         # exempt ranges, sub-rules by digit): two accepted accounts of different branches at bytecode
         # granularity (quick: the last pair of branches; thorough: every pair, plus the last pair with
@@ -361,7 +375,13 @@ def build_harnesses(tier: str):
         if len(bad) > 1 and not quick:
             ctl[f"natpair-{cc}-invalid2"] = {"op": "iban", "text": bases.iban_text(cc, bad[0]), "nat": True}
             pairs.append((f"natpair-{cc}-invalid2", f"natpair-{cc}-invalid"))
-    deep = {("parse", "parse-gb"), ("generate", "generate-gb"), ("nat-es", "nat-es-bad"),
+    # views of unvalidated objects next to ordinary validation: .numeric of a very long text (beyond
+    # the interpreter's int <-> str limit) and of an ordinary one
+    ctl["numeric-long"] = {"op": "numeric", "text": "DE89" + "3" * 4400}
+    ctl["numeric"] = {"op": "numeric", "text": valid}
+    pairs += [("numeric-long", "parse"), ("numeric-long", "generate"), ("numeric", "parse-gb"), ("numeric-long", "numeric")]
+    deep = {("numeric-long", "parse"), ("numeric-long", "numeric"),
+            ("parse", "parse-gb"), ("generate", "generate-gb"), ("nat-es", "nat-es-bad"),
             ("nat-be", "nat-be-bad"), ("generate-es", "generate-fr")}
     for a, b in pairs:
         p = 2 if ((a, b) in deep and not quick) else 1
@@ -496,7 +516,9 @@ def _run_harness(args, solo_before, traced, steps):
     last = None
     nruns, drifted = 0, False
     fp_start = deep_fingerprint()
-    explorer = sched.explore(mk, specs_n, bound, opcode, fingerprint)
+    # operations that loop over thousands of characters offer a switch at most 4 times per source line
+    pll = 4 if any(isinstance(sp, dict) and sp.get("op") == "numeric" for sp in specs) else None
+    explorer = sched.explore(mk, specs_n, bound, opcode, fingerprint, per_line_limit=pll)
     while True:
         try:
             ch, ex, res = next(explorer)
